@@ -1,5 +1,6 @@
 import PeroVerif.Drv.Common
 import PeroVerif.Model.Rot90
+import PeroVerif.Model.OrderLines
 open Lean Drv
 
 namespace Drv.C18
@@ -19,6 +20,11 @@ def handle : Handler := fun j => do
       let q := rotateLayout rot sh ((jj : Int), (i : Int))
       jInts [s.1, s.2, q.1, q.2]
     return ok (Json.mkObj [("shape", jNats [sh.1, sh.2]), ("cells", Json.arr cells.toArray)])
+  | "order" =>
+    let keys ← getRatList j "keys"
+    let n := keys.length
+    let r := OrdL.orderLines keys (List.range n) (List.range n) (List.range n)
+    return ok (Json.mkObj [("b", jNats r.1), ("h", jNats r.2.1), ("t", jNats r.2.2)])
   | _ => throw s!"C18: unknown op {op}"
 
 end Drv.C18
